@@ -6,7 +6,7 @@ import itertools
 from . import common as C
 
 HEADER = """From Coq Require Import ZArith List.
-From VZ Require Import Model.K8_BPE.
+From VZ Require Import Model.K8_BPE Model.K8_BPE_select.
 Import ListNotations.
 Open Scope Z_scope.
 Fixpoint all_strings_len (alpha : list Z) (n : nat) : list (list Z) :=
@@ -27,7 +27,11 @@ Definition train_of (CL : list (Z * Z)) (X : list (list Z)) (V MCC0 : Z) :=
   bpe_train _ (replay_init CL) replay_step X V MCC0.
 Definition fit_case CL X V MCC0 Xn := on (train_of CL X V MCC0) (fun t => view t X Xn).
 Definition exh_case CL X V MCC0 alpha n := bind (train_of CL X V MCC0) (fun t => enc_all t (all_strings alpha n)).
-Definition kernel_case l a b c := (contract_pair_arr l a b c, contract a b c l).
+Definition kernel_case l a b c :=
+  (contract_pair_arr l a b c, contract a b c l, cacp l a b c (count_pairs [l; [a; b; a; b]])).
+(* the whole of bpe_train, pair selection included (no input from the implementation) *)
+Definition full_case MINTOK X V MCC0 :=
+  on (bpe_train _ (impl_init MINTOK) impl_step X V MCC0) (fun t => (t_tokens t, t_merges t, t_enc t, t_mcc t)).
 """
 
 NAMES_LIMIT = {"ascii": 127, "common": 2047, "bmp": 65535, "unicode": 1114111}
@@ -298,6 +302,28 @@ def coq_case(c, r):
     return "fit_case %s %s" % (args, C.coq_list2(c["Xnew"]))
 
 
+def coq_full(c):
+    return "full_case %s %s %s %s" % (C.z(c["mintok"]), C.coq_list2(c["X"]), C.z(c["vocab"]), C.z(mcc_value(c["mcc"])))
+
+
+def full_correspondence(case, r, m):
+    """the model of the whole training (selection included) against the fitted attributes"""
+    ok, v = unres(m)
+    sq = r.get("sequences", {})
+    impl_ok = "ok" in sq.get("fit_transform", {})
+    if not ok or not impl_ok:
+        return [("fit (full training model)", sq.get("fit_transform"), m)] if ok != impl_ok else []
+    toks, ms, enc, mcc = v
+    diffs = []
+    for name, a, b in [("code_list_ (full training model)", sq["code_list_"], [[x, y] for x, y in ms]),
+                       ("tokens_ (full training model)", sq["tokens_"], toks),
+                       ("fit_transform sequences (full training model)", sq["fit_transform"]["ok"], enc),
+                       ("max_char_code_ (full training model)", sq["max_char_code_"], mcc)]:
+        if a != b:
+            diffs.append((name, a, b))
+    return diffs
+
+
 def unres(v):
     """("Ok", x) -> (True, x); ("Err", n) -> (False, n)"""
     return (v[0] == "Ok", v[1])
@@ -330,12 +356,17 @@ def correspondence(case, r, m):
     """model value m vs implementation result r: list of differing fields."""
     diffs = []
     if case["kind"] == "kernel":
-        arr, spec = m
+        arr, spec, full = m
         for k in ("contract_pair", "contract_and_count_pairs"):
             if seq_impl(r[k]) != res_model(arr):
                 diffs.append((k, seq_impl(r[k]), res_model(arr)))
         if res_model(arr) != spec:
             diffs.append(("contract_pair_arr vs contract (spec)", res_model(arr), spec))
+        okf, vf = unres(full)
+        want = {"err": vf} if not okf else [vf[0], [[a, b, n] for a, b, n in vf[1]]]
+        got = [r["contract_and_count_pairs"].get("ok"), r["cacp_dict"].get("ok")] if "ok" in r["contract_and_count_pairs"] else {"err": "raised"}
+        if got != want and not (isinstance(got, dict) and isinstance(want, dict)):
+            diffs.append(("contract_and_count_pairs (array, pair_counts)", got, want))
         return diffs
     ok, v = unres(m)
     sq = r.get("sequences", {})
@@ -433,11 +464,13 @@ def run(ctx, replay=None):
     import time
     t_coq = time.time()
     model = C.coq_eval_sharded("C09", HEADER, [coq_case(c, r) for c, r in zip(cases, impl)], shard=60)
+    trainable = [k for k, c in enumerate(cases) if c["kind"] != "kernel"]
+    full = dict(zip(trainable, C.coq_eval_sharded("C09full", HEADER, [coq_full(cases[k]) for k in trainable], shard=100)))
     ctx.coverage["wall_s"] = {"compiled": info["wall_s"], "NUMBA_DISABLE_JIT=1": info_py["wall_s"],
                               "NUMBA_BOUNDSCHECK=1": info_bc["wall_s"], "coq_model": round(time.time() - t_coq, 1)}
     n_corr = n_or = n_strings = n_sound = 0
     corr_bad = []
-    for c, r, m in zip(cases, impl, model):
+    for k_case, (c, r, m) in enumerate(zip(cases, impl, model)):
         if r is None:
             continue
         kind = c["kind"]
@@ -480,6 +513,8 @@ def run(ctx, replay=None):
                                "C09_train_wf): code_list_=%r" % sq["code_list_"], {"stage": "assumption", "case": c}, found_input=False)
         n_corr += 1
         d = correspondence(c, r, m)
+        if k_case in full:
+            d += full_correspondence(c, r, full[k_case])
         if d:
             corr_bad.append((c, d))
     # the other execution modes: a result identical to the compiled one inherits its verdict; a different one is judged
